@@ -476,6 +476,68 @@ func runC20(c *eng.Ctx) {
 			})
 			return found
 		}
+		// the naming may also happen in the callee: every error that execCommandOutput returns is built with one of
+		// its parameters that receives the hook's path or name at this call; then returning the call's error as it is
+		// names the hook too
+		namesAtCall := func(e ast.Expr) bool {
+			found := false
+			ast.Inspect(e, func(n ast.Node) bool {
+				if id, ok := n.(*ast.Ident); ok {
+					if o := info.Uses[id]; o == hookPath || (o != nil && nameOf(o) == "hookName") {
+						found = true
+					}
+				}
+				if sx, ok := n.(*ast.SelectorExpr); ok && (sx.Sel.Name == "Name" || sx.Sel.Name == "Path") {
+					found = true
+				}
+				return true
+			})
+			return found
+		}
+		calleeWraps := false
+		if cf := p.FuncOf(exec); cf != nil && cf.Decl.Body != nil {
+			cinfo := cf.Pkg.TypesInfo
+			csig := cf.Obj.Type().(*types.Signature)
+			naming := map[types.Object]bool{}
+			for i := 0; i < csig.Params().Len() && i < len(call.Args); i++ {
+				if namesAtCall(call.Args[i]) {
+					naming[csig.Params().At(i)] = true
+				}
+			}
+			nerr, okAll := 0, true
+			eng.InspectNoLit(cf.Decl.Body, func(n ast.Node) bool {
+				ret, isR := n.(*ast.ReturnStmt)
+				if !isR || !returnsNonNilError(cinfo, csig, ret) {
+					return true
+				}
+				nerr++
+				uses := false
+				ast.Inspect(ret.Results[len(ret.Results)-1], func(m ast.Node) bool {
+					if id, isId := m.(*ast.Ident); isId && naming[cinfo.Uses[id]] {
+						uses = true
+					}
+					return true
+				})
+				if !uses {
+					okAll = false
+				}
+				return true
+			})
+			calleeWraps = nerr > 0 && okAll
+		}
+		var callErr types.Object
+		if n := g.NodeOf(call); n != nil {
+			if as, isA := n.Node.(*ast.AssignStmt); isA && len(as.Lhs) >= 1 {
+				callErr = eng.SelObj(info, as.Lhs[len(as.Lhs)-1])
+			}
+		}
+		namesHookDirect := namesHook
+		namesHook = func(ret *ast.ReturnStmt) bool {
+			if namesHookDirect(ret) {
+				return true
+			}
+			return calleeWraps && callErr != nil && len(ret.Results) == 2 && eng.SelObj(info, ret.Results[1]) == callErr
+		}
 		fail := func(n *eng.GNode) bool {
 			ret, ok := n.Node.(*ast.ReturnStmt)
 			return ok && returnsNonNilError(info, lh.Obj.Type().(*types.Signature), ret) && namesHook(ret)
